@@ -290,6 +290,113 @@ pub fn dispatch(f: &[&str]) -> String {
             let r = if f[1] == "1" { match String::from_utf8(raw) { Ok(s) => Body::new_with_encoding(s, e), Err(_) => return "invalid-utf8".into() } } else { Body::new_with_encoding(raw, e) };
             match r { Ok(b) => format!("ok\t{}\t{}", b.encoding(), hex(b.as_ref())), Err(x) => format!("err\t{}", hex(&x)) }
         }
+        "mbox.display" => {
+            use std::fmt::Write;
+            let Some(e) = utf8(unhex(f[2])) else { return "invalid-utf8".into() };
+            let name = if f[1] == "!" { None } else { match utf8(unhex(f[1])) { Some(x) => Some(x), None => return "invalid-utf8".into() } };
+            let Ok(addr) = e.parse::<lettre::Address>() else { return "bad-address".into() };
+            let mb = lettre::message::Mailbox::new(name, addr);
+            let mut out = String::new();
+            match write!(out, "{}", mb) { Ok(()) => format!("ok\t{}", hex(out.as_bytes())), Err(_) => "fmt-error".into() }
+        }
+        "mboxes.display" => {
+            use std::fmt::Write;
+            let mut mbs = lettre::message::Mailboxes::new();
+            if !f[1].is_empty() {
+                for m in f[1].split(';') {
+                    let p: Vec<&str> = m.split(',').collect();
+                    let name = if p[0] == "!" { None } else { utf8(unhex(p[0])) };
+                    let Some(e) = utf8(unhex(p[1])) else { return "invalid-utf8".into() };
+                    let Ok(addr) = e.parse::<lettre::Address>() else { return "bad-address".into() };
+                    mbs.push(lettre::message::Mailbox::new(name, addr));
+                }
+            }
+            let mut out = String::new();
+            match write!(out, "{}", mbs) { Ok(()) => format!("ok\t{}", hex(out.as_bytes())), Err(_) => "fmt-error".into() }
+        }
+        "mbox.parse" => {
+            let Some(s) = utf8(unhex(f[1])) else { return "invalid-utf8".into() };
+            match s.parse::<lettre::message::Mailbox>() {
+                Ok(m) => format!("ok\t{},{}", m.name.as_ref().map(|n| hex(n.as_bytes())).unwrap_or_else(|| "!".into()), hex(m.email.to_string().as_bytes())),
+                Err(e) => format!("err\t{:?}", e),
+            }
+        }
+        "mboxes.parse" => {
+            let Some(s) = utf8(unhex(f[1])) else { return "invalid-utf8".into() };
+            match s.parse::<lettre::message::Mailboxes>() {
+                Ok(ms) => format!("ok\t{}", ms.iter().map(|m| format!("{},{}", m.name.as_ref().map(|n| hex(n.as_bytes())).unwrap_or_else(|| "!".into()), hex(m.email.to_string().as_bytes()))).collect::<Vec<_>>().join(";")),
+                Err(e) => format!("err\t{:?}", e),
+            }
+        }
+        "hdrs.ops" => {
+            use lettre::message::header::{HeaderName, HeaderValue, Headers};
+            let mut h = Headers::new();
+            let mut rs = vec![];
+            if !f[1].is_empty() {
+                for op in f[1].split(';') {
+                    let p: Vec<&str> = op.split(',').collect();
+                    let name = utf8(unhex(p[1])).unwrap();
+                    match p[0] {
+                        "set" => {
+                            let v = utf8(unhex(p[2])).unwrap();
+                            let Ok(n) = HeaderName::new_from_ascii(name) else { rs.push("badname".to_string()); continue };
+                            h.insert_raw(HeaderValue::new(n, v));
+                            rs.push("unit".into());
+                        }
+                        "get" => rs.push(h.get_raw(&name).map(|v| format!("some:{}", hex(v.as_bytes()))).unwrap_or_else(|| "none".into())),
+                        _ => rs.push(match h.remove_raw(&name) { Some(v) => { let mut t = Headers::new(); let vs = format!("{:?}", v); let _ = vs; t.insert_raw(v); let line = t.to_string(); let _ = line; format!("some:{}", hex(t.get_raw(&name).unwrap_or("").as_bytes())) } None => "none".into() }),
+                    }
+                }
+            }
+            format!("{}\t{}", rs.join(";"), hex(h.to_string().as_bytes()))
+        }
+        "hdr.rt" => {
+            // typed header stored in a header map and read back: "eq" iff get(set(h)) == h
+            use lettre::message::header::{self, Headers, Header};
+            let mut h = Headers::new();
+            match f[1] {
+                "date" => {
+                    let secs: u64 = f[2].parse().unwrap();
+                    let st = std::time::UNIX_EPOCH + std::time::Duration::from_secs(secs);
+                    let d = header::Date::new(st);
+                    h.set(d);
+                    let line = h.to_string();
+                    let back: Option<header::Date> = h.get();
+                    let zone_ok = line.trim_end().ends_with(" +0000");
+                    let secs_back = back.map(|b| std::time::SystemTime::from(b).duration_since(std::time::UNIX_EPOCH).unwrap().as_secs());
+                    format!("{}\t{}\t{}", if back == Some(d) && secs_back == Some(secs) { "eq" } else { "NE" }, if zone_ok { "zone-ok" } else { "ZONE-BAD" }, hex(line.as_bytes()))
+                }
+                "mimeversion" => {
+                    let v = header::MimeVersion::new(f[2].parse().unwrap(), f[3].parse().unwrap());
+                    h.set(v);
+                    if h.get::<header::MimeVersion>() == Some(v) { "eq".into() } else { format!("NE\t{}", hex(h.to_string().as_bytes())) }
+                }
+                "cte" => {
+                    let v: header::ContentTransferEncoding = f[2].parse().unwrap();
+                    h.set(v);
+                    if h.get::<header::ContentTransferEncoding>() == Some(v) { "eq".into() } else { "NE".into() }
+                }
+                "cdisp" => {
+                    let fname = utf8(unhex(f[3])).unwrap();
+                    let v = if f[2] == "attachment" { header::ContentDisposition::attachment(&fname) } else { header::ContentDisposition::inline_with_name(&fname) };
+                    h.set(v.clone());
+                    if h.get::<header::ContentDisposition>() == Some(v) { "eq".into() } else { format!("NE\t{}", hex(h.to_string().as_bytes())) }
+                }
+                "ctype" => {
+                    let s = utf8(unhex(f[2])).unwrap();
+                    let Ok(v) = header::ContentType::parse(&s) else { return "unparseable".into() };
+                    h.set(v.clone());
+                    if h.get::<header::ContentType>() == Some(v) { "eq".into() } else { format!("NE\t{}", hex(h.to_string().as_bytes())) }
+                }
+                "subject" => {
+                    let s = utf8(unhex(f[2])).unwrap();
+                    let v = header::Subject::from(s);
+                    h.set(v.clone());
+                    if h.get::<header::Subject>() == Some(v) { "eq".into() } else { "NE".into() }
+                }
+                _ => "bad-kind".into(),
+            }
+        }
         other => format!("UNKNOWN-FN {}", other),
     }
 }
